@@ -15,6 +15,10 @@ def build_route(score, route, rng_seed):
         return P.seq_from_abs(ms)
     if route == "rel":
         return P.seq_from_rel(P.abs_to_rel(ms))
+    if route == "swapped":
+        # the events of every tick inserted in the opposite order (time and key signature of one tick swap places)
+        ticks = sorted(set(m["t"] for m in ms))
+        return P.seq_from_abs([m for t in ticks for m in reversed([x for x in ms if x["t"] == t])])
     if route in ("edited", "sharedobjs"):
         return None          # built in execute(): needs the base
     if route == "late":
@@ -113,8 +117,8 @@ def run(ctx):
         pairs = ctx.generate("Gen_Equals", "Gen_Equals.cfg", env={"VERIF_TIER": ctx.tier})
         cases = []
         for p in pairs:
-            RT = ("abs", "rel", "shuffled", "late", "edited", "sharedobjs")
-            routes = list(RT) if p["kind"] == "none" or ctx.thorough else [RT[len(cases) % 6], RT[(len(cases) + 3) % 6]]
+            RT = ("abs", "rel", "shuffled", "late", "edited", "sharedobjs", "swapped")
+            routes = list(RT) if p["kind"] == "none" or ctx.thorough else [RT[len(cases) % 7], RT[(len(cases) + 3) % 7]]
             for r in routes:
                 cases.append((len(cases), p, r))
     obs = pmap(execute, cases, chunk=300)
